@@ -177,9 +177,36 @@ def describe_number(case):
         return case
 
 
+HF_REP = "0af.p+-xP"
+
+
+def gen_hexfloat(rng, tier):
+    n, maxlen = {"quick": (3000, 4), "thorough": (60000, 5), "search": (2000, 3)}[tier]
+    out = ["-"]
+    for k in range(1, maxlen + 1):
+        for t in itertools.product(HF_REP, repeat=k):
+            out.append(hexs("".join(t).encode()))
+    for c in range(128):
+        for ctx in ("%s", "1%s", "%s1", "1.%s", "1p%s", "1p%s1", "1%sp1"):
+            out.append(hexs((ctx % chr(c)).encode("latin1")))
+    for _ in range(n):
+        s = mantissa(rng, "0123456789abcdef" if rng.random() < 0.8 else HEXL)
+        if rng.random() < 0.6:
+            s += exponent(rng, "p" if rng.random() < 0.85 else "pPeE")
+        for _ in range(rng.choice([0, 0, 1, 1, 2])):
+            s = mutate(rng, s)
+        if rng.random() < 0.05:
+            s += rng.choice(["\n", " ", "\np1", "p1\n"])
+        out.append(hexs(s.encode()))
+    return out
+
+
 LEGS_NUMBER = [
     Leg("c03.number", gen_number, shrink=shrink_number, canon_impl=canon_number, describe=describe_number,
         nontrivial=lambda c: c != "-" and len(c) >= 4 and re.search(r"[^0-9]", bytes.fromhex(c.split(" ")[0]).decode("latin1")) is not None),
+    # parseHexFloat / reHexFloat directly (the regexp is modelled by a hand-written recogniser)
+    Leg("c03.hexfloat", gen_hexfloat, shrink=shrink_number, canon_impl=canon_number, describe=describe_number,
+        nontrivial=lambda c: c != "-" and len(c) >= 4),
 ]
 
 TRUSTED_NUMBER = [
